@@ -94,6 +94,7 @@ class Target:
         self.fault_at = None
         self.fault_prior_at = None
         self.fault_exc = Fault
+        self.memo = None      # dict: the likelihood memoises (returns the very array it returned before for the same points)
 
     def _np(self, x):
         x = ns.to_np(x)
@@ -135,8 +136,15 @@ class Target:
         self.calls.append(("L", n, attached, matches, _xh(s.x)))
         if self.fault_at is not None and k == self.fault_at:
             raise self.fault_exc(f"likelihood call {k}")
+        if self.memo is not None:
+            key = (n, _xh(s.x))
+            if key in self.memo:
+                return self.memo[key]
         v = self.like_np(s.x)
-        return s.xp.asarray(v, dtype=s.x.dtype) if not ns.ns_of(s.x) == "numpy" else v.astype(ns.to_np_dtype(s.x))
+        out = s.xp.asarray(v, dtype=s.x.dtype) if not ns.ns_of(s.x) == "numpy" else v.astype(ns.to_np_dtype(s.x))
+        if self.memo is not None:
+            self.memo[key] = out
+        return out
 
 
 def _xh(x):
